@@ -235,6 +235,34 @@ def run(ctx):
     except (Budget, _Unmodelled) as e:
         ctx.unk("C05.3", f"{Q}: interpretation stopped", SER, f"{type(e).__name__}: {e}")
 
+    # C05.6b: a decoded cell stays what it was when another id is decoded afterwards (no shared result object)
+    try:
+        from .absint import State
+        ra, rb = consts.FIRST + 1, consts.FIRST + 3
+        if layout.get(ra, {}).get("encodes") and layout.get(rb, {}).get("encodes"):
+            ida = layout[ra]["form"]
+            from .codec import valid_id_from_guard
+            idb = valid_id_from_guard(interp, rb, n, consts, suffix="_b")
+            st2 = State()
+            o1 = interp.run_function(SER, "deserialize", [ida], st2)
+            first = o1[0].value if len(o1) == 1 and o1[0].kind == "return" else None
+            snap = dict(first.fields) if isinstance(first, CellV) else None
+            if idb is not None and snap is not None:
+                st3 = o1[0].state
+                o2 = interp.run_function(SER, "deserialize", [idb], st3)
+                second = o2[0].value if len(o2) == 1 and o2[0].kind == "return" else None
+                if isinstance(second, CellV):
+                    if second is first:
+                        ctx.bad("C05.6", f"{Q}.deserialize returns the same object for every id", core.loc(SER, ctx.sources.func(SER, "deserialize")),
+                                f"a cell decoded at resolution {ra} is overwritten when an id of resolution {rb} is decoded afterwards: the first result no longer "
+                                f"re-encodes to its id")
+                    else:
+                        same = all(repr(first.fields.get(k)) == repr(snap.get(k)) for k in snap)
+                        ctx.ob("C05.6", f"{Q}.deserialize results are independent objects", core.DISCHARGED if same else core.VIOLATED,
+                               core.loc(SER, ctx.sources.func(SER, "deserialize")), "decoding a second id leaves the first decoded cell unchanged")
+    except (Budget, _Unmodelled) as e:
+        ctx.unk("C05.6", f"{Q}.deserialize twice", SER, f"{type(e).__name__}: {e}")
+
     # C05.9: the ids enumerated at resolution r are exactly get_num_cells(r) many (expansion of the world cell)
     try:
         from .rules_C06 import Raises, Setup, children_family, const_call
